@@ -103,6 +103,38 @@ func modeC18() {
 			tr.Emit("boot18", "kind", fk, "pos", pos, "started", started, "panicked", panicked, "rebound", rebound, "err", es)
 		}
 	}
+	// start-up errors in the upstream / domain-set part of the configuration with upstreams that own a socket
+	// from the moment they are built (quic, h3): everything built so far is released
+	for _, kind := range []string{"dupup-quic", "dupup-h3", "unkfwd-quic", "badset-quic"} {
+		time.Sleep(100 * time.Millisecond)
+		base := sockFDs()
+		scheme := "quic"
+		if strings.HasSuffix(kind, "h3") {
+			scheme = "h3"
+		}
+		cfg := &router.Config{Upstreams: []router.UpstreamConfig{{Tag: "main", Addr: "udp://" + u.addr}, {Tag: "backup", Addr: scheme + "://127.0.0.1:5353"}},
+			Rules:   []router.RuleConfig{{Forward: "main"}},
+			Servers: []router.ServerConfig{{Protocol: "udp", Listen: fmt.Sprintf("127.0.0.1:%d", freePort(true))}}}
+		switch {
+		case strings.HasPrefix(kind, "dupup"):
+			cfg.Upstreams = append(cfg.Upstreams, router.UpstreamConfig{Tag: "main", Addr: scheme + "://127.0.0.1:5354"})
+		case strings.HasPrefix(kind, "unkfwd"):
+			cfg.Rules = append(cfg.Rules, router.RuleConfig{Forward: "nowhere"})
+		case strings.HasPrefix(kind, "badset"):
+			cfg.DomainSets = []router.DomainSetConfig{{Tag: "s", Files: []string{"/nonexistent/set.txt"}}}
+		}
+		vr, err := router.VerifRun(cfg)
+		es, panicked, started := "", false, err == nil
+		if err != nil {
+			es = err.Error()
+			panicked = strings.HasPrefix(es, "panic:")
+		}
+		if vr != nil {
+			vr.Close()
+		}
+		time.Sleep(250 * time.Millisecond)
+		tr.Emit("boot18", "kind", kind, "pos", 0, "started", started, "panicked", panicked, "rebound", sockFDs() <= base, "err", es, "fds", sockFDs(), "basefds", base)
+	}
 	// whole router: all listener kinds, a few queries, then close
 	base := sockFDs()
 	in, err := newInst("c18-all", instOpts{listeners: allListeners, upstreams: map[string]string{"u1": "udp", "u2": "tcp", "u3": "tcp+pipeline"},
